@@ -89,3 +89,6 @@ Definition model_rw_rules : list rwrule := [
   mk_rwrule "<default>" "";
   mk_rwrule "<tail>" "set privs, err := stmt.RequiredPrivileges(); if err != nil { return return err }; range privs { if !p.Rwuser { refuse } }"
 ].
+
+(* the table after fix5.patch (cardinality statements without a FROM clause ask for read on the statement's database) *)
+Definition model_privs_repaired : list stmt_priv := map repair_card_row model_privs.
